@@ -74,6 +74,21 @@ struct Machine {
     // buffer alone between guard pages / canaries
     uint64_t pk = ch.below(4);
     if (pk >= 2) ar.set_packed(pk == 2 ? +1 : -1);
+    // half of the programs pass ONE scratch buffer (sized with the *_tmp_bytes functions, never re-initialised) as the tmp_space of
+    // every call -- what the tmp_space arguments are for; the other half give each call a fresh, exactly sized, prefilled buffer
+    shared_scratch = ch.below(2) != 0;
+  }
+  bool shared_scratch = false, loop_shared = false;
+  uint8_t* sh_p = nullptr;
+  size_t sh_cap = 0;
+  uint8_t* scratch(size_t len) {
+    if (!shared_scratch) return buf(len, (int)ch.below(4));
+    if (len > sh_cap || !sh_p) {
+      sh_cap = std::max<size_t>(len, 2 * sh_cap);
+      if (sh_cap < 8 * n * 8 * 2) sh_cap = 8 * n * 8 * 2;  // a comfortable first size: the pointer then stays the same over the program
+      sh_p = ar.alloc(sh_cap, OVER, 0, 3, 0x5C2A7C4).p;
+    }
+    return sh_p;
   }
   size_t dl() const { return spq::dft_limb_bytes(mt, n); }
   size_t bl() const { return spq::big_limb_bytes(mt, n); }
@@ -263,7 +278,7 @@ struct Machine {
       for (uint64_t i = 0; i < rs && i < as; ++i) out[i][q] = d[i];
     }
     uint64_t tb = src_kind == 0 ? vec_znx_normalize_base2k_tmp_bytes(mod) : src_kind == 1 ? vec_znx_big_normalize_base2k_tmp_bytes(mod) : vec_znx_big_range_normalize_base2k_tmp_bytes(mod);
-    uint8_t* t = buf(tb, (int)ch.below(4));
+    uint8_t* t = scratch(tb);
     ZSlot& R = Z[ri];
     if (src_kind == 0) vec_znx_normalize_base2k(mod, kk, R.p, rs, R.sl, Z[src].p, Z[src].size, Z[src].sl, t);
     else if (src_kind == 1) vec_znx_big_normalize_base2k(mod, kk, R.p, rs, R.sl, (VEC_ZNX_BIG*)B[src].p, B[src].size, t);
@@ -298,7 +313,7 @@ struct Machine {
       vec_znx_idft_tmp_a(mod, (VEC_ZNX_BIG*)B[bi].p, rs, (VEC_ZNX_DFT*)D[d].p, D[d].size);
       D[d].valid = false;  // documented: a_dft is overwritten
     } else {
-      uint8_t* t = buf(vec_znx_idft_tmp_bytes(mod), (int)ch.below(4));
+      uint8_t* t = scratch(vec_znx_idft_tmp_bytes(mod));
       vec_znx_idft(mod, (VEC_ZNX_BIG*)B[bi].p, rs, (VEC_ZNX_DFT*)D[d].p, D[d].size, t);
     }
     note_flags(B[bi].flags);
@@ -344,7 +359,7 @@ struct Machine {
       }
     }
     s.p = buf(bytes_of_vmp_pmat(mod, s.nr, s.nc), (int)ch.below(4));
-    uint8_t* t = buf(vmp_prepare_contiguous_tmp_bytes(mod, s.nr, s.nc), (int)ch.below(4));
+    uint8_t* t = scratch(vmp_prepare_contiguous_tmp_bytes(mod, s.nr, s.nc));
     vmp_prepare_contiguous(mod, (VMP_PMAT*)s.p, mat.data(), s.nr, s.nc, t);
     M.push_back(s);
     trace.push_back("M" + u(M.size() - 1) + " = vmp_prepare_contiguous(" + u(s.nr) + "x" + u(s.nc) + ", bits=" + u(bits) + ")");
@@ -374,10 +389,10 @@ struct Machine {
       D[di].v[j] = acc;
     }
     if (src_kind == 0) {
-      uint8_t* t = buf(vmp_apply_dft_tmp_bytes(mod, rs, Z[src].size, mm.nr, mm.nc), (int)ch.below(4));
+      uint8_t* t = scratch(vmp_apply_dft_tmp_bytes(mod, rs, Z[src].size, mm.nr, mm.nc));
       vmp_apply_dft(mod, (VEC_ZNX_DFT*)D[di].p, rs, Z[src].p, Z[src].size, Z[src].sl, (VMP_PMAT*)mm.p, mm.nr, mm.nc, t);
     } else {
-      uint8_t* t = buf(vmp_apply_dft_to_dft_tmp_bytes(mod, rs, D[src].size, mm.nr, mm.nc), (int)ch.below(4));
+      uint8_t* t = scratch(vmp_apply_dft_to_dft_tmp_bytes(mod, rs, D[src].size, mm.nr, mm.nc));
       vmp_apply_dft_to_dft(mod, (VEC_ZNX_DFT*)D[di].p, rs, (VEC_ZNX_DFT*)D[src].p, D[src].size, (VMP_PMAT*)mm.p, mm.nr, mm.nc, t);
     }
     trace.push_back("D" + u(di) + " = " + (src_kind == 0 ? "vmp_apply_dft(Z" : "vmp_apply_dft_to_dft(D") + u(src) + ", M" + u(m) + ", res_size=" + u(rs) + ")");
@@ -390,10 +405,29 @@ struct Machine {
     if (l1(x) * l1(y) > BUDGET || linf(x) >= 1125899906842624.0L || linf(y) >= 1125899906842624.0L) return false;
     int ri = new_z(1, Z[a].flags | Z[b].flags | F_DFT | F_PRODUCT | F_IDFT);
     Z[ri].v[0] = mul_exact(n, x, y);
-    uint8_t* t = buf(znx_small_single_product_tmp_bytes(mod), (int)ch.below(4));
+    uint8_t* t = scratch(znx_small_single_product_tmp_bytes(mod));
     znx_small_single_product(mod, Z[ri].p, Z[a].p + la * Z[a].sl, Z[b].p + lb * Z[b].sl, t);
     trace.push_back("Z" + u(ri) + " = znx_small_single_product(Z" + u(a) + "[" + u(la) + "], Z" + u(b) + "[" + u(lb) + "])");
     return check_z(ri, "znx_small_single_product");
+  }
+  // the key-switch / external-product loop: several prepared matrices applied to the SAME input vector, each product brought back
+  // to coefficient space and normalised before the next one
+  bool op_vmp_loop(int z) {
+    if (!dftable(Z[z].v)) return false;
+    if (M.empty()) op_vmp_prepare();
+    const int iters = 2 + (int)ch.below(2);
+    bool any = false;
+    for (int t = 0; t < iters && fail.empty(); ++t) {
+      if (ch.below(3) == 0 && M.size() < 6) op_vmp_prepare();
+      int m = (int)ch.below(M.size());
+      if (!op_vmp_apply(0, z, m)) break;
+      any = true;
+      int d = (int)D.size() - 1;
+      if (!op_idft(d, ch.below(2))) break;
+      if (!op_normalize(1, (int)B.size() - 1)) break;
+    }
+    if (any && shared_scratch) loop_shared = true;
+    return any;
   }
   // big arithmetic; which: 0 add 1 add_small 2 add_small2 3 sub 4 sub_small_a 5 sub_small_b 6 sub_small2 7 rotate 8 automorphism
   bool op_big(int which, int a, int b) {
@@ -452,7 +486,7 @@ struct Machine {
       if (!fail.empty()) return;
       int z = pick_recent(Z), b = pick_recent(B), d = pick_recent(D), p = pick_recent(P), m = pick_recent(M);
       int z2 = Z.empty() ? -1 : (int)ch.below(Z.size());
-      uint64_t c = ch.below(mt == FFT64 ? 20 : 9);
+      uint64_t c = ch.below(mt == FFT64 ? 22 : 9);
       bool done = false;
       if (mt == NTT120) {
         switch (c) {
@@ -492,7 +526,8 @@ struct Machine {
             break;
           }
           case 17: case 18: if (b >= 0) done = op_normalize(1 + (int)ch.below(2), b); break;
-          default: if (z >= 0 && z2 >= 0) done = op_small_product(z, z2); break;
+          case 19: if (z >= 0 && z2 >= 0) done = op_small_product(z, z2); break;
+          default: if (z >= 0) done = op_vmp_loop(z); break;
         }
       }
       if (done || !fail.empty()) return;
